@@ -542,7 +542,8 @@ fn http_part(r: &mut Report) {
                         }
                         r.exec(3);
                         // through the packet-level analyzer: SYN, SYN+ACK, then the message in one segment
-                        let (c, s) = ((1u8, 40000u16), (2u8, 80u16));
+                        // (every third exchange runs between two ports of ONE address - a host talking to itself, loopback captures)
+                        let (c, s) = ((1u8, 40000u16), (if (mask + ua_style) % 3 == 2 { 1u8 } else { 2u8 }, 80u16));
                         let syn = pkt::build(&Spec { src: c.0, sport: c.1, dst: s.0, dport: s.1, flags: SYN, seq: 999, ..Spec::default() });
                         let synack = pkt::build(&Spec { src: s.0, sport: s.1, dst: c.0, dport: c.1, flags: SYN | ACK, seq: 4999, ack: 1000, ..Spec::default() });
                         // the message arrives in a plain data segment, or (every other case) in the segment that also closes
